@@ -31,6 +31,9 @@ pub enum Op {
     /// an operation that panics (division by zero / unrepresentable result): the
     /// thread must keep working with its own mode afterwards
     Panicking { x: D, kind: u8 },
+    /// the thread terminates (and is joined); a later step with the same thread number
+    /// starts a new thread, which must begin with RoundHalfEven again
+    Exit,
 }
 
 #[derive(Clone, Debug, Hash, PartialEq, Eq, Serialize, Deserialize)]
@@ -85,6 +88,7 @@ fn arb_op() -> BoxedStrategy<Op> {
         3 => (tie_d(), 0u8..=2).prop_map(|(x, prec)| Op::Fmt { x, prec }),
         1 => (tie_d(), -1i8..=2).prop_map(|(x, n)| Op::CheckedRound { x, n }),
         2 => (tie_d(), 0u8..4).prop_map(|(x, kind)| Op::Panicking { x, kind }),
+        2 => Just(Op::Exit),
         2 => (tie_d(), prop_oneof![Just(D::new(5, 1)), Just(D::new(1, 0)), Just(D::new(-2, 0)), Just(D::new(25, 2)), Just(D::new(10, 0))]).prop_map(|(x, q)| Op::Quantize { x, q }),
         1 => (prop_oneof![Just(1i128), Just(3), Just(-1), Just(-3), Just(5), Just(7)], any::<bool>()).prop_map(|(a, third)| {
             if third { Op::CheckedDiv { x: D::new(a, 0), y: D::new(3, 0) } } else { Op::CheckedDiv { x: D::new(a, 0), y: D::new(2_000_000_000_000_000_000, 0) } }
@@ -95,6 +99,8 @@ fn arb_op() -> BoxedStrategy<Op> {
 
 enum Cmd {
     Run(Op),
+    /// wait at the barrier, then repeat `burst_ops()` that many times
+    Burst(std::sync::Arc<std::sync::Barrier>, u32),
     Quit,
 }
 
@@ -118,41 +124,68 @@ thread_local! {
     static PROBE: std::cell::RefCell<Option<ExitProbe>> = const { std::cell::RefCell::new(None) };
 }
 
+fn exec_op(op: Op) -> String {
+    match op {
+        Op::Set(m) => {
+            RoundingMode::set_default(mode_to_fpdec(Mode::from_index(m)));
+            "set".to_string()
+        }
+        Op::Get => format!("mode {}", mode_index(RoundingMode::default())),
+        Op::Round { x, n } => format!("{}", vcore::common::op(|| x.dec().round(n))),
+        Op::DivRounded { x, y, n } => format!("{}", vcore::common::op(|| x.dec().div_rounded(y.dec(), n))),
+        Op::MulRounded { x, y, n } => format!("{}", vcore::common::op(|| x.dec().mul_rounded(y.dec(), n))),
+        Op::Mul { x, y } => format!("{}", vcore::common::op(|| x.dec() * y.dec())),
+        Op::Div { x, y } => format!("{}", vcore::common::op(|| x.dec() / y.dec())),
+        Op::Panicking { x, kind } => {
+            let big = Decimal::MAX;
+            let r = match kind % 4 {
+                0 => vcore::common::op(|| x.dec() / Decimal::ZERO),
+                1 => vcore::common::op(|| big + big),
+                2 => vcore::common::op(|| x.dec().div_rounded(Decimal::ZERO, 2)),
+                _ => vcore::common::op(|| big.mul_rounded(big, 0)),
+            };
+            match r {
+                Out::Panic(_) => "panicked".to_string(),
+                o => format!("{o}"),
+            }
+        }
+        Op::CheckedRound { x, n } => format!("{}", crate::c19::opt_out(|| x.dec().checked_round(n))),
+        Op::Quantize { x, q } => format!("{}", vcore::common::op(|| x.dec().quantize(q.dec()))),
+        Op::CheckedDiv { x, y } => format!("{}", crate::c19::opt_out(|| x.dec().checked_div(y.dec()))),
+        Op::Fmt { x, prec } => match catch(|| format!("{:.*}", prec as usize, x.dec())) {
+            Ok(s) => format!("str {s}"),
+            Err(p) => format!("Panic({p})"),
+        },
+        Op::Exit => "<exit is executed by the driver>".to_string(),
+    }
+}
+
 fn worker(rx: Receiver<Cmd>, tx: Sender<String>) {
     engine::install_silent_panic_hook();
     PROBE.with(|p| *p.borrow_mut() = Some(ExitProbe { tx: tx.clone() }));
-    while let Ok(Cmd::Run(op)) = rx.recv() {
-        let out = match op {
-            Op::Set(m) => {
-                RoundingMode::set_default(mode_to_fpdec(Mode::from_index(m)));
-                "set".to_string()
-            }
-            Op::Get => format!("mode {}", mode_index(RoundingMode::default())),
-            Op::Round { x, n } => format!("{}", vcore::common::op(|| x.dec().round(n))),
-            Op::DivRounded { x, y, n } => format!("{}", vcore::common::op(|| x.dec().div_rounded(y.dec(), n))),
-            Op::MulRounded { x, y, n } => format!("{}", vcore::common::op(|| x.dec().mul_rounded(y.dec(), n))),
-            Op::Mul { x, y } => format!("{}", vcore::common::op(|| x.dec() * y.dec())),
-            Op::Div { x, y } => format!("{}", vcore::common::op(|| x.dec() / y.dec())),
-            Op::Panicking { x, kind } => {
-                let big = Decimal::MAX;
-                let r = match kind % 4 {
-                    0 => vcore::common::op(|| x.dec() / Decimal::ZERO),
-                    1 => vcore::common::op(|| big + big),
-                    2 => vcore::common::op(|| x.dec().div_rounded(Decimal::ZERO, 2)),
-                    _ => vcore::common::op(|| big.mul_rounded(big, 0)),
-                };
-                match r {
-                    Out::Panic(_) => "panicked".to_string(),
-                    o => format!("{o}"),
+    loop {
+        let out = match rx.recv() {
+            Ok(Cmd::Run(op)) => exec_op(op),
+            Ok(Cmd::Burst(barrier, iters)) => {
+                // all live threads run the same mode-sensitive operations at the same time,
+                // each under its own mode; report the distinct outputs seen per operation
+                let ops = burst_ops();
+                let own = RoundingMode::default();
+                let mut seen: Vec<std::collections::BTreeSet<String>> = vec![Default::default(); ops.len()];
+                barrier.wait();
+                for k in 0..iters {
+                    for (i, o) in ops.iter().enumerate() {
+                        seen[i].insert(exec_op(o.clone()).replace(['\n', ';', '|'], " "));
+                    }
+                    if k % 8 == 0 {
+                        // write traffic: re-install the thread's own mode
+                        RoundingMode::set_default(own);
+                    }
                 }
+                let parts: Vec<String> = seen.iter().map(|s| s.iter().cloned().collect::<Vec<_>>().join("|")).collect();
+                format!("burst {}", parts.join(";"))
             }
-            Op::CheckedRound { x, n } => format!("{}", crate::c19::opt_out(|| x.dec().checked_round(n))),
-            Op::Quantize { x, q } => format!("{}", vcore::common::op(|| x.dec().quantize(q.dec()))),
-            Op::CheckedDiv { x, y } => format!("{}", crate::c19::opt_out(|| x.dec().checked_div(y.dec()))),
-            Op::Fmt { x, prec } => match catch(|| format!("{:.*}", prec as usize, x.dec())) {
-                Ok(s) => format!("str {s}"),
-                Err(p) => format!("Panic({p})"),
-            },
+            _ => break,
         };
         if tx.send(out).is_err() {
             break;
@@ -177,11 +210,32 @@ pub fn exec_child() {
             let h = std::thread::spawn(move || worker(ctx_rx, res_tx));
             chans.insert(t, (ctx_tx, res_rx, h));
         }
+        if st.op == Op::Exit {
+            // terminate and join the thread; its thread-local guard reports what it saw while exiting
+            let (tx, rx, h) = chans.remove(&t).unwrap();
+            let _ = tx.send(Cmd::Quit);
+            let _ = h.join();
+            let line = rx.try_recv().unwrap_or_else(|_| "exit <no report>".to_string());
+            out.push_str(&line.replace('\n', " "));
+            out.push('\n');
+            continue;
+        }
         let (tx, rx, _) = chans.get(&t).unwrap();
         tx.send(Cmd::Run(st.op.clone())).expect("worker alive");
         let got = rx.recv().unwrap_or_else(|_| "worker died".to_string());
         out.push_str(&got.replace('\n', " "));
         out.push('\n');
+    }
+    // concurrent phase: every thread that exists repeats the burst operations simultaneously
+    if chans.len() >= 2 {
+        let barrier = std::sync::Arc::new(std::sync::Barrier::new(chans.len()));
+        for (tx, _, _) in chans.values() {
+            let _ = tx.send(Cmd::Burst(barrier.clone(), BURST_ITERS));
+        }
+        for (t, (_, rx, _)) in chans.iter() {
+            let line = rx.recv().unwrap_or_else(|_| "burst <worker died>".to_string());
+            out.push_str(&format!("thread {t} {line}\n"));
+        }
     }
     for (t, (tx, rx, h)) in chans {
         let _ = tx.send(Cmd::Quit);
@@ -231,13 +285,99 @@ fn out_matches_c(got: &str, exp: &Exp, checked: bool) -> bool {
     judge(&out, exp, checked).is_ok()
 }
 
+fn op_label(op: &Op) -> &'static str {
+    match op {
+        Op::Set(_) => "op:set",
+        Op::Get => "op:get",
+        Op::Round { .. } => "op:round",
+        Op::DivRounded { .. } => "op:div_rounded",
+        Op::MulRounded { .. } => "op:mul_rounded",
+        Op::Mul { .. } => "op:mul",
+        Op::Div { .. } => "op:div",
+        Op::Fmt { .. } => "op:fmt",
+        Op::CheckedRound { .. } => "op:checked_round",
+        Op::Quantize { .. } => "op:quantize",
+        Op::CheckedDiv { .. } => "op:checked_div",
+        Op::Panicking { .. } => "op:panicking",
+        Op::Exit => "op:exit",
+    }
+}
+
+fn fmt_spec(prec: u8) -> Spec {
+    Spec { fill: ' ', align: Align::Default, plus: false, zero: false, width: None, precision: Some(prec as usize) }
+}
+
+/// the expected outcome of `op` under rounding mode `m`, as text
+fn expected_str(op: &Op, m: Mode) -> String {
+    match op {
+        Op::Set(_) => "set".into(),
+        Op::Get => format!("mode {}", m.index()),
+        Op::Round { x, n } | Op::CheckedRound { x, n } => format!("{}", exp_round((*x).into(), *n, m).0),
+        Op::DivRounded { x, y, n } => format!("{}", exp_div_rounded((*x).into(), (*y).into(), *n, m).0),
+        Op::MulRounded { x, y, n } => format!("{}", exp_mul_rounded((*x).into(), (*y).into(), *n, m).0),
+        Op::Mul { x, y } => format!("{}", exp_mul((*x).into(), (*y).into(), m).0),
+        Op::Div { x, y } | Op::CheckedDiv { x, y } => format!("{}", exp_div((*x).into(), (*y).into(), m).0),
+        Op::Quantize { x, q } => format!("{}", exp_quantize((*x).into(), (*q).into(), m).0[0]),
+        Op::Fmt { x, prec } => format!("str {}", ref_format(x.c, x.s, m, &fmt_spec(*prec))),
+        Op::Panicking { .. } => "panicked".into(),
+        Op::Exit => exit_line(m),
+    }
+}
+
+/// what a thread with mode `m` reports while it exits
+fn exit_line(m: Mode) -> String {
+    let (e, _) = exp_round(Q { c: 25, s: 1 }, 0, m);
+    format!(
+        "exit mode Ok({}) round {} fmt Ok({:?})",
+        m.index(),
+        match &e {
+            Exp::Value { num, .. } => format!("Value({num} @0)"),
+            o => format!("{o}"),
+        },
+        ref_format(-35, 1, m, &fmt_spec(0))
+    )
+}
+
+/// does the observed output `got` of `op` agree with the exact result under mode `md`?
+fn verdict(op: &Op, got: &str, md: Mode) -> (bool, String) {
+    let want = expected_str(op, md);
+    let ok = match op {
+        Op::Set(_) | Op::Get | Op::Fmt { .. } | Op::Panicking { .. } | Op::Exit => got == want,
+        Op::Round { x, n } => out_matches(got, &exp_round((*x).into(), *n, md).0),
+        Op::CheckedRound { x, n } => out_matches_c(got, &exp_round((*x).into(), *n, md).0, true),
+        Op::DivRounded { x, y, n } => out_matches(got, &exp_div_rounded((*x).into(), (*y).into(), *n, md).0),
+        Op::MulRounded { x, y, n } => out_matches(got, &exp_mul_rounded((*x).into(), (*y).into(), *n, md).0),
+        Op::Mul { x, y } => out_matches(got, &exp_mul((*x).into(), (*y).into(), md).0),
+        Op::Div { x, y } => out_matches(got, &exp_div((*x).into(), (*y).into(), md).0),
+        Op::CheckedDiv { x, y } => out_matches_c(got, &exp_div((*x).into(), (*y).into(), md).0, true),
+        Op::Quantize { x, q } => out_matches_any(got, &exp_quantize((*x).into(), (*q).into(), md).0, false),
+    };
+    (ok, want)
+}
+
+/// operations every live thread repeats simultaneously in the concurrent burst
+fn burst_ops() -> Vec<Op> {
+    vec![
+        Op::Get,
+        Op::Round { x: D::new(25, 1), n: 0 },
+        Op::Round { x: D::new(-35, 1), n: 0 },
+        Op::DivRounded { x: D::new(5, 0), y: D::new(2, 0), n: 0 },
+        Op::MulRounded { x: D::new(15, 1), y: D::new(5, 1), n: 1 },
+        Op::Div { x: D::new(1, 0), y: D::new(3, 0) },
+        Op::Mul { x: D::new(15, 10), y: D::new(5, 9) },
+        Op::Fmt { x: D::new(-25, 1), prec: 0 },
+    ]
+}
+
+const BURST_ITERS: u32 = 200;
+
 impl Prop for C19 {
     type Case = Case;
     fn id(&self) -> &'static str {
         "C19"
     }
     fn rule(&self) -> String {
-        "Generated schedules: up to 4 logical threads and a global sequence of up to 40 steps (thread, op) with op in {set_default(mode), default(), round, checked_round, div_rounded, mul_rounded, quantize, * with p+q > 18, /, checked_div, Display with precision, and operations that panic (division by zero, unrepresentable result) after which the thread must keep working}; in addition every thread carries a thread-local guard installed at thread start whose destructor reports default() / round / Display as seen while the thread exits; threads are real OS threads started lazily at their first step (so they start after others changed their mode) and driven in lock-step by the harness; every schedule is executed in a fresh child process (vcheck c19-exec), so no process-wide state survives from one schedule to the next. \
+        "Generated schedules: up to 4 logical threads and a global sequence of up to 40 steps (thread, op) with op in {set_default(mode), default(), thread exit (joined; the same thread number then names a NEW thread), round, checked_round, div_rounded, mul_rounded, quantize, * with p+q > 18, /, checked_div, Display with precision, and operations that panic (division by zero, unrepresentable result) after which the thread must keep working}; in addition every thread carries a thread-local guard installed at thread start whose destructor reports default() / round / Display as seen while the thread exits; threads are real OS threads started lazily at their first step (so they start after others changed their mode) and driven in lock-step by the harness; every schedule is executed in a fresh child process (vcheck c19-exec), so no process-wide state survives from one schedule to the next; after the lock-step steps all threads of the schedule (if at least two) are released from a barrier and repeat 8 mode-sensitive operations 200 times truly concurrently, each under the mode its model says, and report every distinct output they saw - all must be the exact result under the thread's own mode. \
          Operands are exact ties / near ties so the 8 modes give different answers. Oracle: model map thread -> mode (RoundHalfEven at thread start); every result must equal the exact result under the issuing thread's model mode; default() must return it. \
          Non-trivial: a set_default on one thread is followed by a rounding step on another thread whose model mode differs. Distinct: hash of the schedule."
             .into()
@@ -277,7 +417,7 @@ impl Prop for C19 {
         m
     }
     fn mandatory_labels(&self, _tier: Tier) -> Vec<&'static str> {
-        vec!["cross-thread", "late-start", "get-after-set", "op:round", "op:div_rounded", "op:mul_rounded", "op:mul", "op:div", "op:fmt", "op:quantize", "op:checked_div", "op:checked_round", "op:panicking", "exit-probe", "exit-probe:custom-mode", "threads=1", "threads>=3", "mode-sensitive", "config:no-default-features"]
+        vec!["cross-thread", "late-start", "get-after-set", "op:round", "op:div_rounded", "op:mul_rounded", "op:mul", "op:div", "op:fmt", "op:quantize", "op:checked_div", "op:checked_round", "op:panicking", "exit-probe", "exit-probe:custom-mode", "threads=1", "threads>=3", "mode-sensitive", "config:no-default-features", "concurrent-burst", "concurrent-burst:modes-differ", "op:exit", "op:exit:custom-mode", "op:exit:custom-mode-while-others-custom", "rounding-after-another-thread-exited"]
     }
     fn builtin_corpus(&self) -> Vec<Case> {
         let s = |t: u8, op: Op| Step { thread: t, op };
@@ -308,6 +448,8 @@ impl Prop for C19 {
         let mut model: BTreeMap<u8, Mode> = BTreeMap::new();
         let mut any_set = false;
         let mut last_set_by: Option<u8> = None;
+        let mut exited = false;
+        let mut ever: std::collections::BTreeSet<u8> = Default::default();
         for (idx, st) in case.steps.iter().enumerate() {
             let t = st.thread;
             if !model.contains_key(&t) {
@@ -320,148 +462,53 @@ impl Prop for C19 {
             ctx.sub();
             let md = model[&t];
             let others_differ = model.iter().any(|(k, v)| *k != t && *v != md);
-            let mut mode_sensitive = |f: &dyn Fn(Mode) -> String| {
-                let a = f(md);
-                if oracle::MODES.iter().any(|m| f(*m) != a) {
-                    true
-                } else {
-                    false
-                }
-            };
-            let (ok, want): (bool, String) = match &st.op {
+            match &st.op {
                 Op::Set(m) => {
                     any_set = true;
                     last_set_by = Some(t);
                     model.insert(t, Mode::from_index(*m));
-                    (got == "set", "set".into())
                 }
                 Op::Get => {
                     if last_set_by.is_some() {
                         ctx.label("get-after-set");
                     }
-                    let w = format!("mode {}", md.index());
-                    (got == w, w)
                 }
-                Op::Round { x, n } => {
-                    ctx.label("op:round");
-                    let (e, _) = exp_round((*x).into(), *n, md);
-                    if mode_sensitive(&|m| format!("{}", exp_round((*x).into(), *n, m).0)) {
+                Op::Exit => {
+                    ctx.label("op:exit");
+                    if md != Mode::HalfEven {
+                        ctx.label("op:exit:custom-mode");
+                        if model.iter().any(|(k, v)| *k != t && *v != Mode::HalfEven) {
+                            ctx.label("op:exit:custom-mode-while-others-custom");
+                        }
+                    }
+                    exited = true;
+                }
+                o => {
+                    ctx.label(op_label(o));
+                    if exited && md != Mode::HalfEven {
+                        ctx.label("rounding-after-another-thread-exited");
+                    }
+                    if !matches!(o, Op::Panicking { .. }) && oracle::MODES.iter().any(|m| expected_str(o, *m) != expected_str(o, md)) {
                         ctx.label("mode-sensitive");
                         if others_differ {
                             ctx.label("cross-thread");
                             ctx.nontrivial();
                         }
                     }
-                    (out_matches(&got, &e), format!("{e}"))
                 }
-                Op::DivRounded { x, y, n } => {
-                    ctx.label("op:div_rounded");
-                    let (e, _) = exp_div_rounded((*x).into(), (*y).into(), *n, md);
-                    if mode_sensitive(&|m| format!("{}", exp_div_rounded((*x).into(), (*y).into(), *n, m).0)) {
-                        ctx.label("mode-sensitive");
-                        if others_differ {
-                            ctx.label("cross-thread");
-                            ctx.nontrivial();
-                        }
-                    }
-                    (out_matches(&got, &e), format!("{e}"))
-                }
-                Op::MulRounded { x, y, n } => {
-                    ctx.label("op:mul_rounded");
-                    let (e, _) = exp_mul_rounded((*x).into(), (*y).into(), *n, md);
-                    if mode_sensitive(&|m| format!("{}", exp_mul_rounded((*x).into(), (*y).into(), *n, m).0)) {
-                        ctx.label("mode-sensitive");
-                        if others_differ {
-                            ctx.label("cross-thread");
-                            ctx.nontrivial();
-                        }
-                    }
-                    (out_matches(&got, &e), format!("{e}"))
-                }
-                Op::Mul { x, y } => {
-                    ctx.label("op:mul");
-                    let (e, _) = exp_mul((*x).into(), (*y).into(), md);
-                    if mode_sensitive(&|m| format!("{}", exp_mul((*x).into(), (*y).into(), m).0)) {
-                        ctx.label("mode-sensitive");
-                        if others_differ {
-                            ctx.label("cross-thread");
-                            ctx.nontrivial();
-                        }
-                    }
-                    (out_matches(&got, &e), format!("{e}"))
-                }
-                Op::Div { x, y } => {
-                    ctx.label("op:div");
-                    let (e, _) = exp_div((*x).into(), (*y).into(), md);
-                    if mode_sensitive(&|m| format!("{}", exp_div((*x).into(), (*y).into(), m).0)) {
-                        ctx.label("mode-sensitive");
-                        if others_differ {
-                            ctx.label("cross-thread");
-                            ctx.nontrivial();
-                        }
-                    }
-                    (out_matches(&got, &e), format!("{e}"))
-                }
-                Op::Panicking { .. } => {
-                    ctx.label("op:panicking");
-                    (got == "panicked", "panicked".into())
-                }
-                Op::CheckedRound { x, n } => {
-                    ctx.label("op:checked_round");
-                    let (e, _) = exp_round((*x).into(), *n, md);
-                    if mode_sensitive(&|m| format!("{}", exp_round((*x).into(), *n, m).0)) {
-                        ctx.label("mode-sensitive");
-                        if others_differ {
-                            ctx.label("cross-thread");
-                            ctx.nontrivial();
-                        }
-                    }
-                    (out_matches_c(&got, &e, true), format!("{e}"))
-                }
-                Op::Quantize { x, q } => {
-                    ctx.label("op:quantize");
-                    let (es, _) = exp_quantize((*x).into(), (*q).into(), md);
-                    if mode_sensitive(&|m| format!("{}", exp_quantize((*x).into(), (*q).into(), m).0[0])) {
-                        ctx.label("mode-sensitive");
-                        if others_differ {
-                            ctx.label("cross-thread");
-                            ctx.nontrivial();
-                        }
-                    }
-                    (out_matches_any(&got, &es, false), format!("{}", es[0]))
-                }
-                Op::CheckedDiv { x, y } => {
-                    ctx.label("op:checked_div");
-                    let (e, _) = exp_div((*x).into(), (*y).into(), md);
-                    if mode_sensitive(&|m| format!("{}", exp_div((*x).into(), (*y).into(), m).0)) {
-                        ctx.label("mode-sensitive");
-                        if others_differ {
-                            ctx.label("cross-thread");
-                            ctx.nontrivial();
-                        }
-                    }
-                    (out_matches_c(&got, &e, true), format!("{e}"))
-                }
-                Op::Fmt { x, prec } => {
-                    ctx.label("op:fmt");
-                    let spec = Spec { fill: ' ', align: Align::Default, plus: false, zero: false, width: None, precision: Some(*prec as usize) };
-                    let w = format!("str {}", ref_format(x.c, x.s, md, &spec));
-                    if mode_sensitive(&|m| ref_format(x.c, x.s, m, &spec)) {
-                        ctx.label("mode-sensitive");
-                        if others_differ {
-                            ctx.label("cross-thread");
-                            ctx.nontrivial();
-                        }
-                    }
-                    (got == w, w)
-                }
-            };
+            }
+            let (ok, want) = verdict(&st.op, &got, md);
+            ever.insert(t);
+            if st.op == Op::Exit {
+                model.remove(&t);
+            }
             ctx.note(|| format!("step {idx} thread {t} {:?}: model mode {}, expected {want}, observed {got}", st.op, md.name()));
             if !ok {
                 // would another thread's mode explain the observation?
                 let leaked = model.iter().any(|(k, v)| *k != t && *v != md);
                 let sig = match &st.op {
                     Op::Get if md == Mode::HalfEven && !model_was_set(&case.steps[..idx], t) => "C19/initial-mode",
+                    Op::Exit => "C19/mode-lost-at-thread-exit",
                     _ if case.no_default_features && leaked => "C19/mode-not-per-thread-without-default-features",
                     _ if leaked => "C19/mode-not-per-thread",
                     _ => "C19/wrong-result-under-own-mode",
@@ -481,6 +528,35 @@ impl Prop for C19 {
                     Some(m) => *m,
                     None => continue,
                 };
+                if f.get(2) == Some(&"burst") {
+                    // "thread <t> burst <outputs of op 0 joined by |>;<op 1>;..."
+                    let body = line.splitn(4, ' ').nth(3).unwrap_or("");
+                    let ops = burst_ops();
+                    let parts: Vec<&str> = body.split(';').collect();
+                    ctx.label("concurrent-burst");
+                    if model.values().any(|m| *m != md) {
+                        ctx.label("concurrent-burst:modes-differ");
+                    }
+                    if parts.len() != ops.len() {
+                        ctx.fail("C19/wrong-result-in-concurrent-phase", format!("schedule {:?}: thread {t} reported [{line}] for the concurrent phase", case.steps));
+                        continue;
+                    }
+                    for (o, seen) in ops.iter().zip(parts) {
+                        for got in seen.split('|') {
+                            ctx.sub();
+                            let (ok, want) = verdict(o, got, md);
+                            if !ok {
+                                let leaked = model.iter().any(|(k, v)| *k != t && *v != md && verdict(o, got, *v).0);
+                                ctx.fail(
+                                    if leaked { "C19/mode-not-per-thread-under-concurrency" } else { "C19/wrong-result-in-concurrent-phase" },
+                                    format!("schedule {:?}, then all {} threads repeat {:?} {BURST_ITERS} times simultaneously: thread {t} (model mode {}) observed {got}, expected {want}", case.steps, model.len(), o, md.name()),
+                                );
+                            }
+                        }
+                    }
+                    ctx.note(|| format!("concurrent phase, thread {t} (model mode {}): {body}", md.name()));
+                    continue;
+                }
                 ctx.sub();
                 ctx.label("exit-probe");
                 let (e, _) = exp_round(Q { c: 25, s: 1 }, 0, md);
@@ -495,7 +571,7 @@ impl Prop for C19 {
                 }
             }
         }
-        match model.len() {
+        match ever.len() {
             1 => ctx.label("threads=1"),
             2 => ctx.label("threads=2"),
             _ => ctx.label("threads>=3"),
@@ -582,6 +658,13 @@ fn exec(f: &[String]) -> String {
 
 fn worker(rx: Receiver<Vec<String>>, tx: Sender<String>) {
     while let Ok(f) = rx.recv() {
+        if f[1] == "exit" {
+            let m = MODES.iter().position(|m| *m == RoundingMode::default()).unwrap();
+            let r = val(|| Decimal::new_raw(25, 1).round(0));
+            let s = format!("{:.0}", Decimal::new_raw(-35, 1));
+            let _ = tx.send(format!("exit mode Ok({m}) round {r} fmt Ok({s:?})"));
+            return;
+        }
         if tx.send(exec(&f)).is_err() {
             break;
         }
@@ -592,7 +675,7 @@ fn main() {
     std::panic::set_hook(Box::new(|_| {}));
     let mut input = String::new();
     std::io::Read::read_to_string(&mut std::io::stdin(), &mut input).unwrap();
-    let mut chans: BTreeMap<String, (Sender<Vec<String>>, Receiver<String>)> = BTreeMap::new();
+    let mut chans: BTreeMap<String, (Sender<Vec<String>>, Receiver<String>, std::thread::JoinHandle<()>)> = BTreeMap::new();
     let mut out = String::new();
     for line in input.lines() {
         let f: Vec<String> = line.split(' ').map(|s| s.to_string()).collect();
@@ -603,13 +686,18 @@ fn main() {
         if !chans.contains_key(&t) {
             let (ctx_tx, ctx_rx) = channel();
             let (res_tx, res_rx) = channel();
-            std::thread::spawn(move || worker(ctx_rx, res_tx));
-            chans.insert(t.clone(), (ctx_tx, res_rx));
+            let h = std::thread::spawn(move || worker(ctx_rx, res_tx));
+            chans.insert(t.clone(), (ctx_tx, res_rx, h));
         }
-        let (tx, rx) = chans.get(&t).unwrap();
+        let is_exit = f[1] == "exit";
+        let (tx, rx, _) = chans.get(&t).unwrap();
         tx.send(f).unwrap();
         out.push_str(&rx.recv().unwrap_or_else(|_| "worker died".to_string()).replace('\n', " "));
         out.push('\n');
+        if is_exit {
+            let (_, _, h) = chans.remove(&t).unwrap();
+            let _ = h.join();
+        }
     }
     print!("{out}");
 }
@@ -683,6 +771,7 @@ fn probe_line(st: &Step) -> String {
         Op::Quantize { x, q } => ("quant", *x, *q, 0),
         Op::Fmt { x, prec } => ("fmt", *x, z, *prec as i64),
         Op::Panicking { x, kind } => ("panic", *x, z, *kind as i64),
+        Op::Exit => ("exit", z, z, 0),
     };
     format!("{} {k} {} {} {} {} {n}\n", st.thread, x.c, x.s, y.c, y.s)
 }
